@@ -25,11 +25,19 @@ type Preempt struct {
 	Task  int // task to preempt
 	Yield int // at its Yield-th yield point (0-based, counted over the task's whole program)
 	Next  int // task to run next
+	// Rel makes the preemption call-relative: it fires in the task's Call-th call at the
+	// Yield-th yield point counted from that call's operation boundary (site -2, which is
+	// yield 0 of the call). Otherwise Yield counts over the whole program.
+	Rel  bool
+	Call int
 }
 
 type task struct {
 	rfd, wfd int
 	yields   int
+	call     int // index of the call the task is in (-1 before its first operation boundary)
+	inCall   int // yield points passed since that call's operation boundary
+	fired    int // index of the preemption at which the task last parked
 	done     bool
 	started  bool
 	src      *entropy.Source
@@ -131,7 +139,7 @@ func (s *Sched) AddTask(src *entropy.Source, prog func()) int {
 	if err := syscall.Pipe(p[:]); err != nil {
 		panic(err)
 	}
-	s.tasks[id] = task{rfd: p[0], wfd: p[1], src: src, prog: prog}
+	s.tasks[id] = task{rfd: p[0], wfd: p[1], src: src, prog: prog, call: -1, fired: -1}
 	s.n++
 	return id
 }
@@ -158,14 +166,21 @@ func Yield(site int32) {
 	t := &s.tasks[s.current]
 	y := t.yields
 	t.yields++
+	if site == -2 {
+		t.call++
+		t.inCall = 0
+	}
+	yc := t.inCall
+	t.inCall++
 	if s.noYield > 0 {
 		return
 	}
 	for i := range s.pre {
 		p := &s.pre[i]
-		if !s.preUsed[i] && p.Task == s.current && p.Yield == y {
+		if !s.preUsed[i] && p.Task == s.current && ((!p.Rel && p.Yield == y) || (p.Rel && p.Call == t.call && p.Yield == yc)) {
 			s.preUsed[i] = true
 			t.parkSite = site
+			t.fired = i
 			// park: tell the dispatcher, then block until released
 			rawWrite(s.mainW)
 			rawRead(t.rfd)
@@ -227,12 +242,11 @@ func (s *Sched) Run() {
 		cur := s.current
 		want := -1
 		if !s.tasks[cur].done {
-			// which preemption fired? the one just marked used for this task at yields-1
-			for i := range s.pre {
-				if s.preUsed[i] && s.pre[i].Task == cur && s.pre[i].Yield == s.tasks[cur].yields-1 {
-					want = s.pre[i].Next
-					s.SiteHits = append(s.SiteHits, s.tasks[cur].parkSite)
-				}
+			// which preemption fired? the task recorded its index before parking
+			if i := s.tasks[cur].fired; i >= 0 && i < len(s.pre) {
+				want = s.pre[i].Next
+				s.SiteHits = append(s.SiteHits, s.tasks[cur].parkSite)
+				s.tasks[cur].fired = -1
 			}
 		}
 		s.current = -1
